@@ -8,6 +8,7 @@
 // every fault point the scenario is re-run from the same initial state and
 //   - the process is killed immediately before that call (crash run), or
 //   - that call fails with EIO (failure run),
+//
 // then the directory tree is inspected. The trace itself is checked for the
 // ordering obligations (fsync before the publishing rename, no write access
 // to the destination).
@@ -30,7 +31,6 @@ import (
 	"sync"
 	"sync/atomic"
 	"syscall"
-	"time"
 
 	"github.com/safing/jess"
 	"github.com/safing/jess/filesig"
@@ -198,12 +198,6 @@ func sideOutputs(sc Scenario, ex *Expect) []string {
 	return nil
 }
 
-func nondeterministic(sc Scenario) bool {
-	// the number and sizes of the writes of a download depend on how the
-	// response body arrives from the socket
-	return sc.Op == opFetch && (sc.New == "medium" || sc.New == "large")
-}
-
 func site(sc Scenario) string {
 	s := sc.Op
 	if sc.has("signed") {
@@ -340,11 +334,6 @@ func (e *env) runPoint(fp FaultPoint, verbose bool) string {
 			return ""
 		}
 		why := validate(fp, r)
-		if why == "not-reached" && nondeterministic(sc) {
-			r.cleanup()
-			c.Outcome("skipped:point-not-reached-in-this-run(nondeterministic write count)")
-			return ""
-		}
 		if why != "" {
 			lastWhy = why + "\n" + r.Out + "\n" + r.LogTail
 			r.cleanup()
@@ -381,10 +370,6 @@ func (e *env) runPoint(fp FaultPoint, verbose bool) string {
 		}
 		r.cleanup()
 		return cls + "|" + v.State
-	}
-	if nondeterministic(sc) {
-		c.Outcome("skipped:unstable-point(nondeterministic write count)")
-		return ""
 	}
 	c.EngineError("%s %s: three runs in a row did not hit the intended call: %s", sc.Name(), fp.Fault, lastWhy)
 	return ""
@@ -471,10 +456,8 @@ func validate(fp FaultPoint, r *RunResult) string {
 			}
 		}
 	}
-	if !nondeterministic(fp.Sc) {
-		if got := normalise(target, r.Spec); got != fp.Norm {
-			return fmt.Sprintf("the call differs from the trace run: %s vs %s", got, fp.Norm)
-		}
+	if got := normalise(target, r.Spec); got != fp.Norm {
+		return fmt.Sprintf("the call differs from the trace run: %s vs %s", got, fp.Norm)
 	}
 	return ""
 }
@@ -799,5 +782,3 @@ func startServer() (*httptest.Server, string, error) {
 	}))
 	return srv, rcpt58, nil
 }
-
-var _ = time.Now
